@@ -9,9 +9,9 @@ git -C /repo worktree add -q --detach "$WT" HEAD
 loc=$(cat "$S/demo_location.txt" 2>/dev/null | head -1 | awk '{print $1}'); loc=${loc:-tests/seed_demo.rs}
 if [ "${SKIP_CONFIRM:-0}" != 1 ]; then
   ( cd "$WT" && mkdir -p "$(dirname "$loc")" && cp "$S/demo.rs" "$loc" \
-    && echo "== demo WITHOUT change" && (cargo test --offline --test seed_demo 2>&1 | grep "test result" ) \
+    && echo "== demo WITHOUT change" && (cargo test --offline ${DEMO_FEATURES:-} --test seed_demo 2>&1 | grep "test result" ) \
     ; git apply "$S/patch.diff" && echo "== suite WITH change" && (cargo test --offline --lib 2>&1 | grep "test result") \
-    ; echo "== demo WITH change" && (cargo test --offline --test seed_demo 2>&1 | grep "test result") )
+    ; echo "== demo WITH change" && (cargo test --offline ${DEMO_FEATURES:-} --test seed_demo 2>&1 | grep "test result") )
 fi
 git -C /repo worktree remove --force "$WT"
 echo "== check $P on /repo with the change applied"
